@@ -21,6 +21,9 @@ import SarpyModel.Drivers.Segment
 import SarpyModel.Drivers.FieldFmt2
 import SarpyModel.Drivers.XsdFmt
 import SarpyModel.Drivers.Kernels2
+import SarpyModel.Drivers.Loops
+import SarpyModel.Drivers.LoopsChip
+import SarpyModel.Drivers.LoopsSidd
 import SarpyModel.Drivers.NitfAssembly
 import SarpyModel.Drivers.LifeGen
 import SarpyModel.Drivers.CheckerRules
@@ -55,6 +58,9 @@ def step (line : String) : String :=
   | "fmt2" :: rest => (fmt2Step rest).getD "bad-op"
   | "xsd" :: rest => (xsdStep rest).getD "bad-op"
   | "k2" :: rest => (k2Step rest).getD "bad-op"
+  | "loops" :: rest => (loopsStep rest).getD "bad-op"
+  | "loopsc" :: rest => (loopscStep rest).getD "bad-op"
+  | "loopss" :: rest => (loopssStep rest).getD "bad-op"
   | "nitfasm" :: rest => (nitfasmStep rest).getD "bad-op"
   | "lifegen" :: rest => (lifeGenStep rest).getD "bad-op"
   | "chkspec" :: rest => (chkspecStep rest).getD "bad-op"
